@@ -113,6 +113,8 @@ type Sim struct {
 	MaxLive   int
 	Strategy  string
 	Stale     int // reservations that were never claimed
+	Adopted   int // goroutines taken over from an earlier simulator of this process (or started outside any)
+	serial    int
 	Jitters   int // times simulated time was let pass although tasks were runnable
 	IdleWaits int // times the fake clock ran because every task slept
 	idleSlept bool
@@ -156,8 +158,60 @@ func pathLess(a, b []int) bool {
 }
 
 // NewSim creates a scheduler; it must be created and run on the bubble's root goroutine.
+// Goroutines that outlive the simulator they were first seen by (an idle worker
+// pool that the code under test keeps for its next call) are recognised by the next
+// simulator of the same process under the name they were given then: identity does
+// not depend on arrival order.
+var (
+	everSeenMu sync.Mutex
+	everSeen   = map[uint64]string{}
+	simSerial  int
+)
+
+func rememberGoroutine(g uint64, name string) {
+	everSeenMu.Lock()
+	if _, ok := everSeen[g]; !ok {
+		everSeen[g] = name
+	}
+	everSeenMu.Unlock()
+}
+
+// adopt makes a task of a goroutine this simulator did not start: one that an earlier
+// simulator of this process knew, or one that was started while no simulator was
+// active. Called with s.mu held.
+func (s *Sim) adopt(g uint64) *Task {
+	everSeenMu.Lock()
+	name, known := everSeen[g]
+	if !known {
+		name = fmt.Sprintf("s%d-stranger%d", s.serial, s.Adopted)
+		everSeen[g] = name
+	}
+	everSeenMu.Unlock()
+	t := &Task{Path: []int{1<<20 + int(HashString(name)%(1<<30))}, Seq: len(s.all), wake: make(chan struct{}), goid: g}
+	t.ID = "adopted:" + name
+	s.all = append(s.all, t)
+	s.tasks[g] = t
+	s.Adopted++
+	return t
+}
+
+// adoptKnown adopts g only if an earlier simulator of this process knew it.
+func (s *Sim) adoptKnown(g uint64) *Task {
+	everSeenMu.Lock()
+	_, known := everSeen[g]
+	everSeenMu.Unlock()
+	if !known {
+		return nil
+	}
+	return s.adopt(g)
+}
+
 func NewSim(t *Tape) *Sim {
-	return &Sim{T: t, MaxSteps: 1 << 20, MaxTasks: 20000, tasks: map[uint64]*Task{}, rootG: goid(), h: 14695981039346656037, arrivedCh: make(chan struct{}, 1)}
+	everSeenMu.Lock()
+	simSerial++
+	serial := simSerial
+	everSeenMu.Unlock()
+	return &Sim{serial: serial, T: t, MaxSteps: 1 << 20, MaxTasks: 20000, tasks: map[uint64]*Task{}, rootG: goid(), h: 14695981039346656037, arrivedCh: make(chan struct{}, 1)}
 }
 
 func (s *Sim) logEvent(ev string) {
@@ -217,15 +271,20 @@ func (s *Sim) hook(site string) {
 				}
 			}
 		}
-		if parent == nil {
-			s.machinery("yield from a goroutine the simulator cannot attribute to a go statement, at " + site)
-			s.mu.Unlock()
-			runtime.Goexit()
+		everSeenMu.Lock()
+		_, daemon := everSeen[g]
+		everSeenMu.Unlock()
+		if parent == nil || daemon {
+			// no go statement of this simulator started it: a goroutine that outlived an
+			// earlier simulator, or was started while none was active
+			t = s.adopt(g)
+		} else {
+			t = parent.pendingChild
+			parent.pendingChild = nil
+			t.goid = g
+			s.tasks[g] = t
+			rememberGoroutine(g, fmt.Sprintf("s%d-%s", s.serial, t.ID))
 		}
-		t = parent.pendingChild
-		parent.pendingChild = nil
-		t.goid = g
-		s.tasks[g] = t
 	}
 	if s.aborted.Load() {
 		s.mu.Unlock()
@@ -258,8 +317,7 @@ func (s *Sim) spawnHook(site string) {
 	defer s.mu.Unlock()
 	p := s.tasks[g]
 	if p == nil {
-		s.machinery("go statement executed by a goroutine the simulator does not know, at " + site)
-		return
+		p = s.adopt(g)
 	}
 	if p.pendingChild != nil {
 		s.Stale++ // the previous go statement of this task started something that never yields
@@ -317,6 +375,9 @@ func (s *Sim) lockHook(site string, lock interface{}, write bool, acquire bool) 
 	id := lockIdentity(lock)
 	s.mu.Lock()
 	t := s.tasks[g]
+	if t == nil && id != 0 {
+		t = s.adoptKnown(g)
+	}
 	if t == nil || id == 0 {
 		s.mu.Unlock()
 		return
@@ -420,6 +481,9 @@ func (s *Sim) condWaitHook(site string, c interface{}) bool {
 	cid := reflect.ValueOf(cond).Pointer()
 	s.mu.Lock()
 	t := s.tasks[g]
+	if t == nil {
+		t = s.adoptKnown(g)
+	}
 	if t == nil {
 		s.mu.Unlock()
 		return false
@@ -536,6 +600,9 @@ func (s *Sim) chanHook(site string, ch interface{}, send bool, before bool) {
 	s.mu.Lock()
 	t := s.tasks[g]
 	if t == nil {
+		t = s.adoptKnown(g)
+	}
+	if t == nil {
 		s.mu.Unlock()
 		return
 	}
@@ -599,6 +666,7 @@ func (s *Sim) Go(fn func()) *Task {
 		t.goid = g
 		s.tasks[g] = t
 		s.mu.Unlock()
+		rememberGoroutine(g, fmt.Sprintf("s%d-%s", s.serial, t.ID))
 		close(reg)
 		defer func() {
 			// a panic that no instrumented function recovered (it was raised in code
